@@ -9,7 +9,7 @@
 use crate::codec::last_panic;
 use crate::m_sema::{error_kind, show_result};
 use oq3_semantics::semantic_error::SemanticErrorList;
-use oq3_semantics::syntax_to_semantics::parse_source_string_with_path_search;
+use oq3_semantics::syntax_to_semantics::{parse_source_file_with_search, parse_source_string_with_path_search, ParseResult};
 use oq3_source_file::{SourceFile, SourceTrait};
 use serde_json::Value;
 use std::panic::{catch_unwind, AssertUnwindSafe};
@@ -60,6 +60,60 @@ fn show_errs(l: &SemanticErrorList, root: &Path) -> String {
     )
 }
 
+
+fn nerr_nodes(n: &oq3_syntax::SyntaxNode) -> usize {
+    n.descendants_with_tokens().filter(|x| x.kind() == oq3_syntax::SyntaxKind::ERROR).count()
+}
+
+/// (does the tree spell `text`?, number of ERROR nodes) of a parse result; `-` when lexical errors left no tree
+fn tree_facts(a: &oq3_syntax::ParseOrErrors<oq3_syntax::SourceFile>, text: Option<&str>) -> (String, String) {
+    if !a.have_parse() {
+        return ("-".into(), "-".into());
+    }
+    let n = a.syntax_node();
+    let eq = match text {
+        Some(t) => if n.text().to_string() == t { "1" } else { "0" },
+        None => "?",
+    };
+    (eq.to_string(), nerr_nodes(&n).to_string())
+}
+
+/// `path:eq:error-nodes:diagnostics` for every parsed included file: does its tree spell the bytes of the file on disk?
+fn show_eq(f: &SourceFile, root: &Path, out: &mut Vec<String>) {
+    if let Some(a) = f.ast() {
+        let disk = std::fs::read_to_string(f.file_path()).ok();
+        let (eq, ne) = tree_facts(a, disk.as_deref());
+        out.push(format!("{}:{}:{}:{}", rel(f.file_path(), root), eq, ne, a.errors().len()));
+    }
+    for c in f.included_files() {
+        show_eq(c, root, out);
+    }
+}
+
+fn finish<T: SourceTrait>(result: &ParseResult<T>, root: &Path, xmain: String) -> String {
+    let tree: Vec<String> = result.syntax_result().included().iter().map(|c| show_src(c, root)).collect();
+    let syn = result.any_syntax_errors();
+    let head = if syn { "SYNTAX-ERRORS".to_string() } else { show_result(result) };
+    let mut eqs = Vec::new();
+    for c in result.syntax_result().included() {
+        show_eq(c, root, &mut eqs);
+    }
+    // the x* fields are not part of the include model's output (vf/c18.py strips them before comparing)
+    format!(
+        "{};inc=[{}];semtree={};xflags=syn:{},sem:{},any:{},nsyn:{},nstmt:{};xmain={};xeq={}",
+        head,
+        tree.join(" "),
+        show_errs(result.semantic_errors(), root),
+        result.any_syntax_errors() as u8,
+        result.any_semantic_errors() as u8,
+        result.any_errors() as u8,
+        result.num_syntax_errors(),
+        result.program().stmts().len(),
+        xmain,
+        eqs.join(",")
+    )
+}
+
 fn run(case: &Value, base: &Path) -> String {
     let id = case["id"].as_str().unwrap_or("x");
     let root = base.join(id);
@@ -103,26 +157,36 @@ fn run(case: &Value, base: &Path) -> String {
     }
     let old = std::env::current_dir().unwrap();
     std::env::set_current_dir(&root).unwrap();
+    // `entry`: "string" (default) analyses `main` as a string; "file" writes `main` to `mainfile` (relative to the
+    // sandbox) and analyses the path `mainarg` (default: the absolute path) with parse_source_file_with_search
+    let entry = case["entry"].as_str().unwrap_or("string").to_string();
+    let mainfile = case["mainfile"].as_str().unwrap_or("main.qasm").to_string();
+    let mainarg = case["mainarg"].as_str().map(|s| s.replace("@ROOT@", &rootstr));
+    if entry == "file" {
+        let fp = root.join(&mainfile);
+        if let Some(parent) = fp.parent() {
+            std::fs::create_dir_all(parent).unwrap();
+        }
+        std::fs::write(&fp, &main).unwrap();
+    }
     let out = catch_unwind(AssertUnwindSafe(|| {
-        let result = parse_source_string_with_path_search(&main, None, search.as_deref());
-        let tree: Vec<String> = result
-            .syntax_result()
-            .included()
-            .iter()
-            .map(|c| show_src(c, &root))
-            .collect();
-        let syn = result.any_syntax_errors();
-        let head = if syn {
-            "SYNTAX-ERRORS".to_string()
+        if entry == "file" {
+            let arg = mainarg.clone().unwrap_or_else(|| root.join(&mainfile).to_string_lossy().to_string());
+            let result = parse_source_file_with_search(PathBuf::from(arg), search.as_deref());
+            let top = result.syntax_result();
+            let (eq, ne) = top.ast().map_or(("-".to_string(), "-".to_string()), |a| tree_facts(a, Some(&main)));
+            let xmain = format!("{}:{}:{}:{}", rel(top.file_path(), &root), top.ast().map_or(0, |a| a.errors().len()), eq, ne);
+            finish(&result, &root, xmain)
         } else {
-            show_result(&result)
-        };
-        format!(
-            "{};inc=[{}];semtree={}",
-            head,
-            tree.join(" "),
-            show_errs(result.semantic_errors(), &root)
-        )
+            let result = parse_source_string_with_path_search(&main, None, search.as_deref());
+            let top = result.syntax_result();
+            let (mut eq, ne) = top.syntax_ast().map_or(("-".to_string(), "-".to_string()), |a| tree_facts(a, Some(&main)));
+            if top.source() != main {
+                eq = "0".to_string();
+            }
+            let xmain = format!("-:{}:{}:{}", top.syntax_ast().map_or(0, |a| a.errors().len()), eq, ne);
+            finish(&result, &root, xmain)
+        }
     }));
     std::env::set_current_dir(&old).unwrap();
     std::env::remove_var("QASM3_PATH");
